@@ -48,7 +48,8 @@ def run(cx):
     for r, t in (("R06a", "the branch comparator is a total order with ints below strings"),
                  ("R06b", "branches are sorted with it; master/main sorts last through a string prefix"),
                  ("R06c", "only commits matching the search text are listed"),
-                 ("R06e", "'not merged' never lists a commit reachable from this branch's head")):
+                 ("R06e", "'not merged' never lists a commit reachable from this branch's head"),
+                 ("R06f", "'not merged' candidates: everything listed in or reachable from the previous branch")):
         cx.rule(r, t)
     cmpf = cx.func(REL, "BranchName.cmp", "R06a")
     inner = [f for f in ast.walk(cmpf) if isinstance(f, FUNC) and f is not cmpf]
@@ -430,7 +431,8 @@ def _r06e(cx, rb, comp, conj):
         """a worklist loop in `func` that fills `setname` and is re-fed with <x>.parents; seeds_ok(worklist name) says the
         worklist starts from the head's report-related parents"""
         for l in [n for n in walk_local(func) if isinstance(n, (ast.While, ast.For))]:
-            fills = [c for c in ast.walk(l) if isinstance(c, ast.Call) and isinstance(c.func, ast.Attribute) and is_name(c.func.value, setname) and c.func.attr in ("add", "update")]
+            fills = [c for c in ast.walk(l) if isinstance(c, ast.Call) and isinstance(c.func, ast.Attribute) and is_name(c.func.value, setname) and c.func.attr in ("add", "update", "setdefault")] + \
+                    [c for c in ast.walk(l) if isinstance(c, ast.Subscript) and isinstance(c.ctx, ast.Store) and is_name(c.value, setname)]
             if not fills:
                 continue
             feeds = []
@@ -496,6 +498,21 @@ def _r06e(cx, rb, comp, conj):
     for name in excl:
         if is_closure(name):
             hit = name
+    # R06f: the candidates.  The comprehension runs over a collection that must hold, besides the commits listed in the builds
+    # of the previous branch, everything reachable from that branch's heads (a branch whose head lies inside a lower branch
+    # lists nothing of it, and the commits would be lost for all following branches)
+    g0 = comp.generators[0]
+    cand = g0.iter.func.value if isinstance(g0.iter, ast.Call) and call_name(g0.iter) in ("items", "values") and isinstance(g0.iter.func, ast.Attribute) else g0.iter
+    cx.need(isinstance(cand, ast.Name), "R06f", comp, "collection of the 'not merged' candidates")
+    seeded = closure_loop_in(rb, cand.id, lambda w: any(v is not None and "prev_branch.rheads" in norm(v) for _, v in assignments(rb, w)))
+    if not seeded:
+        for _, v in assignments(rb, cand.id):
+            pass
+    cx.ob("R06f", comp, seeded,
+          f"`{cand.id}` also holds the closure over .parents of the previous branch's heads" if seeded else
+          f"the candidates `{cand.id}` are only the commits listed in the builds of the previous branch: when that branch's head lies inside an even lower-sorted branch it lists "
+          "nothing of that history, and matching commits reachable from lower branches (not from this head) are missing from 'not merged' here and in every following branch",
+          stmt="'not merged' candidates")
     cx.ob("R06e", comp, hit is not None,
           f"commits in `{hit}` - the closure over .parents of the head's report-related parents - are excluded" if hit else
           f"the filter excludes only {excl or 'nothing'}, none of which is derived from the commits reachable from the head (result_accumdata.rc_parents followed through .parents): "
